@@ -28,12 +28,15 @@ def dump (s : L) : String :=
     section_ "R" (s.recs.map fun e => s!"{recKeyStr e.1}={e.2.staker},{e.2.asset},{e.2.amount},{e.2.actual},{e.2.completeBlock}"),
     section_ "SI" (s.sidx.map fun e => s!"{e.1.1}/{e.1.2.1}/{hexNat e.1.2.2}={recKeyStr e.2}"),
     section_ "PI" (s.pidx.map fun e => s!"{hexNat e.1.1}/{hexNat e.1.2}={recKeyStr e.2}"),
-    section_ "HC" ((s.holds.filter (fun e => e.2 != 0)).map fun e => s!"{recKeyStr e.1}={e.2}")
+    section_ "HC" ((s.holds.filter (fun e => e.2 != 0)).map fun e => s!"{recKeyStr e.1}={e.2}"),
+    section_ "B" (s.bal.map fun e => s!"{e.1}={e.2}"),
+    s!"E={s.escrow}"
   ]
 
 def empty : L :=
-  { height := 0, unbonding := 10, totals := [], operators := [], stakers := [], pools := [], deleg := [],
-    slist := [], assoc := [], recs := [], sidx := [], pidx := [], holds := [], gDep := [], gWd := [], gSlashed := [] }
+  { height := 0, unbonding := 10, totals := [], operators := [], clientChains := [], stakers := [], pools := [], deleg := [],
+    slist := [], assoc := [], recs := [], sidx := [], pidx := [], holds := [], bal := [], escrow := 0,
+    gDep := [], gWd := [], gSlashed := [] }
 
 def result (s : L) (r : Except String L) : L × String :=
   match r with
@@ -45,6 +48,7 @@ def step (s : L) (w : List String) : L × String :=
   | ["ledger.reset", h, ub] => ({ empty with height := parseNat! h, unbonding := parseNat! ub }, "ok")
   | ["ledger.asset", a, t] => ({ s with totals := set s.totals a (parseInt! t) }, "ok")
   | ["ledger.operator", o] => ({ s with operators := s.operators ++ [o] }, "ok")
+  | ["ledger.chain", c] => ({ s with clientChains := s.clientChains ++ [c] }, "ok")
   | ["ledger.staker", st, a, t, wd, p] =>
     ({ s with stakers := set s.stakers (st, a) ⟨parseInt! t, parseInt! wd, parseInt! p⟩ }, "ok")
   | ["ledger.pool", o, a, am, pe, ts, os] =>
@@ -53,6 +57,8 @@ def step (s : L) (w : List String) : L × String :=
     ({ s with deleg := set s.deleg (st, a, o) ⟨⟨parseInt! sh⟩, parseInt! wt⟩ }, "ok")
   | ["ledger.slist", o, a, l] => ({ s with slist := set s.slist (o, a) ((l.splitOn ",").filter (· ≠ "")) }, "ok")
   | ["ledger.assoc", st, o] => ({ s with assoc := set s.assoc st o }, "ok")
+  | ["ledger.bal", st, b] => ({ s with bal := set s.bal st (parseInt! b) }, "ok")
+  | ["ledger.escrow", e] => ({ s with escrow := parseInt! e }, "ok")
   | ["ledger.dump"] => (s, "ok " ++ dump s)
   | ["ledger.deposit", st, a, x] => result s (deposit s st a (parseInt! x))
   | ["ledger.withdraw", st, a, x] => result s (withdraw s st a (parseInt! x))
